@@ -28,7 +28,7 @@ type cliCase struct {
 	Dry, Print, Log int
 	Out             int // 0 unset, 1 same dir, 2 other dir, 3 no extension, 4 multi-dot
 	Spelling        int // 0 relative, 1 absolute, 2 nested from parent, 3 GOFILE only, 4 GOFILE + argument, 5 ./relative, 6 with ..
-	Prior           int // 0 nothing at the output path, 1 a longer file from an earlier generation
+	Prior           int // 0 nothing at the output path, 1 a longer file from an earlier generation, 2 the up-to-date output of an earlier identical run
 }
 
 func (c cliCase) id() string {
@@ -146,6 +146,9 @@ type cliObs struct {
 	LogSize int64
 }
 
+// cliCurrent holds the plain-run output per input (set once by the check): the content of Prior == 2.
+var cliCurrent []string
+
 func (e *Env) cliRun(base string, c cliCase) (cliPlan, cliObs, error) {
 	root, err := cliTree(base, c)
 	if err != nil {
@@ -156,6 +159,10 @@ func (e *Env) cliRun(base string, c cliCase) (cliPlan, cliObs, error) {
 	if c.Prior == 1 {
 		_ = os.MkdirAll(filepath.Dir(pl.OutPath), 0o755)
 		_ = os.WriteFile(pl.OutPath, []byte("package p\n\n"+strings.Repeat("// tail of an earlier, longer generation\n", 300)), 0o644)
+	}
+	if c.Prior == 2 {
+		_ = os.MkdirAll(filepath.Dir(pl.OutPath), 0o755)
+		_ = os.WriteFile(pl.OutPath, []byte(cliCurrent[c.Input]), 0o644)
 	}
 	before := histfs.Take(root, nil)
 	res := e.Runner.Run(pl.Cwd, pl.Args, pl.Env...)
@@ -195,13 +202,18 @@ func init() {
 								if sp <= 1 && out <= 1 {
 									cases = append(cases, cliCase{in, dry, pr, lg, out, sp, 1})
 								}
+								if (sp <= 1 || sp == 3) && out <= 1 {
+									// the state reached by an earlier identical run: the output is already up to date
+									cases = append(cases, cliCase{in, dry, pr, lg, out, sp, 2})
+								}
 							}
 						}
 					}
 				}
 			}
 		}
-		e.Rep.Rule("complete product -dry x -print x -log x -out{unset, same dir, other dir, no extension, multi-dot} x input spelling{relative, absolute, nested from the parent dir, GOFILE only, GOFILE+argument, ./relative, with ..} x accepted inputs x prior content of the output path {none, a longer earlier generation}; " +
+		e.Rep.Rule("complete product -dry x -print x -log x -out{unset, same dir, other dir, no extension, multi-dot} x input spelling{relative, absolute, nested from the parent dir, GOFILE only, GOFILE+argument, ./relative, with ..} x accepted inputs x prior content of the output path {none, a longer earlier generation, the up-to-date output of an earlier identical run}; " +
+			"-log neutrality on FAILING runs too: rejected inputs (bad notation, illegal combination, format-stage failure, no interface, syntax error) and an output path that is a directory x -dry x -print x {without, with -log}: same exit status, same stdout; " +
 			"oracle: reference model of the documented contract (output path, file written iff not -dry, stdout == code iff -print, log at <output minus ext>.log, GOFILE fallback, argument beats GOFILE) and O-diff: " +
 			"code and exit status equal those of the plain run of the same input; non-trivial = run with >= 2 of the flags set")
 		// reference code per input: the plain run
@@ -214,7 +226,9 @@ func init() {
 			}
 			refCode[in] = ob.Code
 		}
+		cliCurrent = refCode
 		e.Rep.AddStates(len(cases))
+		e.c18LogNeutralOnFailure(base)
 		var mu sync.Mutex
 		var sampled atomic.Int32
 		tool.Parallel(len(cases), e.Workers, func(i int) {
@@ -246,6 +260,8 @@ func init() {
 					} else if ob.Code != want {
 						add("output-differs", "bytes at the output path differ from the plain run of the same input")
 					}
+				} else if c.Prior == 2 && ob.Code != want {
+					add("dry-wrote", "-dry changed the (up-to-date) output file")
 				} else if ob.HasOut && c.Prior == 0 {
 					add("dry-wrote", "-dry wrote the output file")
 				}
@@ -316,6 +332,86 @@ func init() {
 				e.Rep.Sample(map[string]any{"case": c.id(), "cwd": pl.Cwd, "args": pl.Args, "env": pl.Env, "expected_output": pl.OutPath, "expected_log": pl.LogPath})
 			}
 		})
+	})
+}
+
+// c18LogNeutralOnFailure: exit status and stdout of a failing run do not depend on -log.
+func (e *Env) c18LogNeutralOnFailure(base string) {
+	type fcase struct {
+		in, dry, pr int
+		outIsDir    bool
+	}
+	var cases []fcase
+	for in := range c15Inputs {
+		if c15Inputs[in].accepted || len(c15Inputs[in].extra) > 0 {
+			continue
+		}
+		for dry := 0; dry < 2; dry++ {
+			for pr := 0; pr < 2; pr++ {
+				cases = append(cases, fcase{in, dry, pr, false})
+			}
+		}
+	}
+	for dry := 0; dry < 2; dry++ {
+		for pr := 0; pr < 2; pr++ {
+			cases = append(cases, fcase{0, dry, pr, true}) // accepted input, output path is a directory
+		}
+	}
+	e.Rep.AddStates(len(cases) * 2)
+	var mu sync.Mutex
+	tool.Parallel(len(cases), e.Workers, func(i int) {
+		c := cases[i]
+		run := func(lg int, tag string) *tool.Result {
+			root := filepath.Join(base, fmt.Sprintf("logfail_%d_%d%s", i, lg, tag))
+			defer os.RemoveAll(root)
+			_ = histfs.WriteTree(root, map[string]string{"p/setup.go": c15Inputs[c.in].src, "p/other.go": "package p\n\nvar Other = 1\n"})
+			if c.outIsDir {
+				_ = os.MkdirAll(filepath.Join(root, "p", "setup.gen.go", "inner"), 0o755)
+			}
+			var args []string
+			if c.dry == 1 {
+				args = append(args, "-dry")
+			}
+			if c.pr == 1 {
+				args = append(args, "-print")
+			}
+			if lg == 1 {
+				args = append(args, "-log")
+			}
+			return e.Runner.Run(filepath.Join(root, "p"), append(args, "setup.go"))
+		}
+		judge := func(tag string) string {
+			a, b := run(0, tag), run(1, tag)
+			switch {
+			case a.Crashed() || b.Crashed() || a.TimedOut || b.TimedOut:
+				return "crash"
+			case a.Exit != b.Exit:
+				return fmt.Sprintf("-log changed the exit status from %d to %d", a.Exit, b.Exit)
+			case a.Stdout != b.Stdout:
+				return "-log changed stdout"
+			}
+			return ""
+		}
+		d := judge("")
+		if d != "" && (judge("_c1") != d || judge("_c2") != d) {
+			e.Rep.Diverged(fmt.Sprintf("logfail_%d", i))
+			return
+		}
+		e.Rep.AddTransitions(2)
+		e.Rep.AddEvaluations(1)
+		e.Rep.AddValidated(1)
+		e.Rep.Outcome("log-neutral-on-failure")
+		e.Rep.Nontrivial(fmt.Sprintf("logfail_%d", i))
+		if d != "" {
+			mu.Lock()
+			id := c15Inputs[c.in].id
+			if c.outIsDir {
+				id = "output-path-is-a-directory"
+			}
+			e.Rep.Report(report.Finding{Key: fmt.Sprintf("C18|log-changes-failing-run|input=%s|dry=%d|print=%d", id, c.dry, c.pr), CellID: fmt.Sprintf("logfail_%s_%d%d", id, c.dry, c.pr), What: d,
+				Replay: &report.Replay{Kind: "history", Files: map[string]string{"p/setup.go": c15Inputs[c.in].src}, Steps: []string{"cwd=<root>/p", "run once without and once with -log", "compare exit status and stdout"}}})
+			mu.Unlock()
+		}
 	})
 }
 
